@@ -28,7 +28,9 @@ def prefix_measured(rng):
     "members whose size is found by reading a prefix (Construct._actualsize): the probe moves the stream, and may still have to give up"
     return rng.choice([A.Prefixed(A.Alias("Byte"), A.GreedyBytes), A.Prefixed(A.Alias("Int16ub"), A.GreedyBytes, incl=True), A.Prefixed(A.Alias("Byte"), A.Bytes(2), incl=True),
                        A.Prefixed(A.VarInt, A.GreedyBytes, incl=True), A.PrefixedArray(A.Alias("Byte"), A.VarInt), A.PrefixedArray(A.Alias("Int16ub"), A.CString("utf8")),
-                       A.PrefixedArray(A.Alias("Byte"), A.Alias("Int16ub")), A.Prefixed(A.VarInt, A.Alias("Byte"))])
+                       A.PrefixedArray(A.Alias("Byte"), A.Alias("Int16ub")), A.Prefixed(A.VarInt, A.Alias("Byte")),
+                       A.PrefixedArray(A.Alias("Byte"), A.Prefixed(A.Alias("Byte"), A.GreedyBytes)), A.PrefixedArray(A.Alias("Byte"), A.PrefixedArray(A.Alias("Byte"), A.Alias("Byte"))),
+                       A.PrefixedArray(A.VarInt, A.Prefixed(A.Alias("Byte"), A.GreedyBytes, incl=True))])
 
 def eager_twin(n):
     if not isinstance(n, dict) or "k" not in n:
@@ -85,6 +87,8 @@ def run(ctx):
                  ("array", A.N("LazyArray", count=A.C(3), sub=A.PrefixedArray(A.Alias("Int16ub"), A.CString("utf8")))),
                  ("array", A.N("LazyArray", count=A.C(2), sub=A.Prefixed(A.Alias("Byte"), A.Bytes(2), incl=True))),
                  ("array", A.N("LazyArray", count=A.C(3), sub=A.Prefixed(A.VarInt, A.GreedyBytes, incl=True))),
+                 ("array", A.N("LazyArray", count=A.C(2), sub=A.PrefixedArray(A.Alias("Byte"), A.Prefixed(A.Alias("Byte"), A.GreedyBytes)))),
+                 ("array", A.N("LazyArray", count=A.C(3), sub=A.PrefixedArray(A.Alias("Byte"), A.PrefixedArray(A.Alias("Byte"), A.Alias("Byte"))))),
                  ("thunk", A.N("Lazy", sub=A.Prefixed(A.Alias("Int16ub"), A.GreedyBytes, incl=True))),
                  ("thunk", A.N("Lazy", sub=A.PrefixedArray(A.Alias("Byte"), A.Alias("Int16ub"))))]
         for i in range(nprog + len(fixed)):
@@ -160,6 +164,16 @@ def run(ctx):
                             except Exception:
                                 ok, val = False, None
                             rec["hist"].append({"i": j + 1, "nm": nm, "ok": ok, "v": V.enc(force(val)) if ok else V.VNone(), "pb": pb, "pa": stream.tell()})
+                        if kind == "array" and rng.random() < 0.6:
+                            # whatever was touched before, and in whatever order: a slice of the whole holds the elements in their order
+                            pb = stream.tell()
+                            lo = rng.choice([0, 0, 1]) if n > 1 else 0
+                            try:
+                                whole, ok = list(res[lo:]), True
+                            except Exception:
+                                whole, ok = [None] * (n - lo), False
+                            for j, val in enumerate(whole[: n - lo]):
+                                rec["hist"].append({"i": lo + j + 1, "nm": "", "ok": ok, "v": V.enc(force(val)) if ok else V.VNone(), "pb": pb, "pa": stream.tell()})
                     camp.sh.session("C16.history", [ie], x=rec)
                     if h != sorted(h) or len(set(h)) != len(h):
                         nt += 1
